@@ -107,6 +107,11 @@ def val(v, depth=0):
         return ("nd", v.dtype.str, v.shape, np.ascontiguousarray(v).tobytes())
     if _is_sparse(v):
         return ("sp", v.format, val(_dense(v)))
+    if hasattr(v, "matvec") and hasattr(v, "shape") and len(getattr(v, "shape", ())) == 2 and not isinstance(v, np.ndarray):
+        try:  # a matrix-free Jacobian: compared through its action on the canonical basis
+            return ("linop", val(np.column_stack([np.asarray(v.matvec(e)).ravel() for e in np.eye(v.shape[1])])))
+        except Exception as e:  # noqa: BLE001
+            return ("linop-unusable", type(e).__name__)
     if isinstance(v, (np.generic,)):
         return ("ng", type(v).__name__, v.item() if v == v else "nan")
     if isinstance(v, float):
@@ -425,12 +430,17 @@ def _restore_grammar(old):
 
 
 def _inputs(d, scale):
-    """The default inputs, scaled and shifted (the shift separates the three inputs of classes whose defaults are 0)."""
+    """The default inputs, scaled and shifted (the shift separates the three inputs of classes whose defaults are 0).
+
+    Complex defaults (a class built for the complex-step method) get an imaginary perturbation, so that the probes are
+    sensitive to the data type with which the class computes."""
     out = {}
     shift = (scale - 1.0) / 2.0
     for k, v in d.default_input_data.items():
         if isinstance(v, np.ndarray) and v.dtype.kind == "f":
             out[k] = v * scale + shift
+        elif isinstance(v, np.ndarray) and v.dtype.kind == "c":
+            out[k] = v * scale + shift + 1e-30j * (1.0 + np.arange(v.size).reshape(v.shape))
         elif isinstance(v, float):
             out[k] = v * scale + shift
         elif isinstance(v, np.ndarray):
@@ -438,6 +448,10 @@ def _inputs(d, scale):
         else:
             out[k] = v
     return out
+
+
+def _base_cls(name):
+    return name.split("/")[0].split("@")[0]
 
 
 def _copy_inputs(x):
@@ -954,8 +968,8 @@ def _catalog_one(name, gname, scales):
         ins, outs = list(d.io.input_grammar), list(d.io.output_grammar)
         nonc = [i for i in ins if i not in outs]
         candidates = [["all"]]
-        if name.split("/")[0] in R_DIFF:
-            candidates.append(["sub", *R_DIFF[name.split("/")[0]]])
+        if _base_cls(name) in R_DIFF:
+            candidates.append(["sub", *R_DIFF[_base_cls(name)]])
         candidates += [["sub", nonc, outs], ["fd"]]
         info["lin"] = ["none"]
         for lin in candidates:
@@ -1001,10 +1015,12 @@ def disc_cases(ctx, catalog):
     """The enumerated (configuration x history) product.  Bound per configuration class (reported in the evidence):
 
     quick     default grammar x SimpleCache (the default policy): every word with one round-trip and <= 2 other operations (68);
-              default grammar x {MemoryFull, HDF5} and every other grammar type x every cache: one round-trip and <= 1 other
-              operation (14) - followed, as always, by the probes execute(new input), linearize(v1), i.e. depth 3-4 in effect;
+              default grammar x {MemoryFull, HDF5} and every other grammar type x SimpleCache: one round-trip and <= 1 other
+              operation (14); other grammar types x {MemoryFull, HDF5}: the 7 of them with the pickle round-trip - followed, as always, by the probes execute(new input), linearize(v1), i.e. depth 3-4 in effect;
               + SimpleCache x every grammar type: 7 grammar-edit words [use, edit, round-trip] (edit = restrict_to / rename /
               add a name / change a default / make optional, on a grammar that has already validated data);
+              + every "Class@param=value" subject (one constructor setting away from its default, e.g. dtype=complex128 with
+              complex probe inputs): the 7 words with pickle round-trip and <= 1 other operation, default grammar, SimpleCache;
               + full caches: the cache-cursor word [E1, E2, L1, RT] (last accessed entry != newest entry; thorough adds [E1, E2, E1, RT])
     thorough  SimpleCache x every grammar type: every word of length <= 3 with one or two round-trips (108), plus, for the
               default grammar, every word with one round-trip and exactly 3 other operations (216, depth 4);
@@ -1041,9 +1057,10 @@ def disc_cases(ctx, catalog):
         def plan(default, cache):
             if cache == "simple":
                 return (h_one if default else h_short) + g_words
+            h_rp = [h for h in h_short if "RF" not in h]  # (the cache classes do not depend on the grammar type)
             if cache == "memF":
-                return h_short + cursor(RTS if default else ["RP"])
-            return h_short + (cursor(["RP"]) if default else [])
+                return (h_short + cursor(RTS)) if default else (h_rp + cursor(["RP"]))
+            return (h_short + cursor(["RP"])) if default else h_rp
 
         caches = CACHES
     first = {}
@@ -1051,13 +1068,18 @@ def disc_cases(ctx, catalog):
         if info["built"]:
             first.setdefault(info["subject"], info["grammar"])
     cases = []
+    dev_words = [h for h in h_short if "RF" not in h] if not ctx.thorough else h_short
     for info in catalog:
         if not info["built"]:
             continue
         name = info["subject"]
-        tol = ITER_TOL.get(name.split("/")[0], ITER_TOL["default"]) if name.split("/")[0] in R.ITERATIVE else 0.0
+        tol = ITER_TOL.get(_base_cls(name), ITER_TOL["default"]) if _base_cls(name) in R.ITERATIVE else 0.0
         for cache in caches:
-            for h in plan(first[name] == info["grammar"], cache):
+            if "@" in name:  # one constructor setting away from the default: default grammar, SimpleCache (+ MemoryFull in thorough)
+                hs = dev_words if cache == "simple" or (ctx.thorough and cache == "memF") else []
+            else:
+                hs = plan(first[name] == info["grammar"], cache)
+            for h in hs:
                 if info["lin"][0] == "none" and "L1" in h:
                     continue
                 cases.append({"part": "D", "subject": name, "grammar": info["grammar"], "cache": cache, "hist": h, "lin": info["lin"], "scales": scales, "tol": tol})
@@ -1261,6 +1283,254 @@ def twin_cases(ctx, only):
     return cases
 
 
+
+# ======================================================================================================
+# part X: the object is pickled in one interpreter and restored in others (other string-hash seeds)
+# ======================================================================================================
+# "as done implicitly by multiprocessing and explicitly by the save/load helpers": the restoring process is not the
+# creating one.  Anything rebuilt at restore from an unordered collection (a set of symbols, of names ...) is ordered
+# by the string-hash seed of the *restoring* interpreter, which a round-trip inside one process can never show.
+XPROC_SEEDS = ("0", "101", "202")  # PYTHONHASHSEED of the saving interpreter and of the restoring ones
+
+_X_SCRIPT = """import sys
+sys.path[:0] = [{src!r}, {root!r}]
+sys.path.append({vendor!r})
+import logging, warnings
+logging.disable(logging.CRITICAL)
+warnings.filterwarnings("ignore")
+from props import c20
+c20.xproc_main(sys.argv[1], sys.argv[2], sys.argv[3])
+"""
+
+
+def _x_handlers(job):
+    """(build() -> (obj, aux), do(obj, op, aux), observe(obj)) for one job of part X."""
+    if job["part"] == "D":
+        def build():
+            old = _set_grammar(job["grammar"])
+            try:
+                d = R.build(job["subject"], None)
+            finally:
+                _restore_grammar(old)
+            _set_cache(d, job.get("cache", "simple"), None)
+            _apply_lin_mode(d, job["lin"])
+            return d, {"V": [_inputs(d, sc) for sc in job["scales"]]}
+
+        return build, (lambda d, op, aux: _do(d, op, aux["V"], job["lin"])), (lambda d: observe(d))
+    ad = _adapter(job)
+
+    def build2():
+        old = _set_grammar(job.get("grammar", "JSONGrammar"))
+        try:
+            return ad.build(job), {}
+        finally:
+            _restore_grammar(old)
+
+    return build2, (lambda o, op, aux: _try(ad.do, o, op, job)), (lambda o: ad.observe(o))
+
+
+def _portable(o):
+    """A result that can be sent to another interpreter: containers, arrays, sparse matrices and scalars as they are,
+    anything else (e.g. a matrix-free Jacobian operator) through its canonical rendering."""
+    if isinstance(o, Mapping):
+        return {k: _portable(v) for k, v in o.items()}
+    if isinstance(o, (list, tuple)):
+        return type(o)(_portable(v) for v in o) if type(o) in (list, tuple) else [_portable(v) for v in o]
+    if isinstance(o, (np.ndarray, np.generic, str, bytes, int, float, complex, bool, type(None))) or _is_sparse(o):
+        return o
+    return val(o)
+
+
+def xproc_main(mode, jobs_file, work):
+    """Runs inside a fresh interpreter: mode 'save' (build, prefix, pickle, continue) or 'load:<tag>' (restore, continue)."""
+    import json
+
+    jobs = json.load(open(jobs_file))
+    for i, job in enumerate(jobs):
+        out = {}
+        obj_path, aux_path = os.path.join(work, f"obj_{i}.pkl"), os.path.join(work, f"aux_{i}.pkl")
+        try:
+            build, do, obs = _x_handlers(job)
+            if mode == "save":
+                try:
+                    obj, aux = build()
+                    for op in job["prefix"]:
+                        do(obj, op, aux)
+                except Exception:  # noqa: BLE001
+                    out["build_error"] = traceback.format_exc()[-600:]
+                else:
+                    try:
+                        if job["rt"] == "RP":
+                            with open(obj_path, "wb") as f:
+                                pickle.dump(obj, f)
+                        else:
+                            from gemseo.utils.pickle import to_pickle
+
+                            to_pickle(obj, obj_path)
+                        with open(aux_path, "wb") as f:
+                            pickle.dump(aux, f)
+                    except Exception as e:  # noqa: BLE001
+                        out["pickle_error"] = f"{type(e).__name__}: {str(e)[:200]}; unpicklable part: {blame(obj)}"
+                    else:
+                        out["obs"] = obs(obj)
+                        out["results"] = [_portable(do(obj, op, aux)) for op in job["suffix"]]
+            else:
+                if not os.path.exists(obj_path):
+                    out["skipped"] = True
+                else:
+                    try:
+                        if job["rt"] == "RP":
+                            with open(obj_path, "rb") as f:
+                                obj = pickle.load(f)
+                        else:
+                            from gemseo.utils.pickle import from_pickle
+
+                            obj = from_pickle(obj_path)
+                        with open(aux_path, "rb") as f:
+                            aux = pickle.load(f)
+                    except Exception as e:  # noqa: BLE001
+                        out["restore_error"] = f"{type(e).__name__}: {str(e)[:300]}"
+                    else:
+                        out["obs"] = obs(obj)
+                        out["results"] = [_portable(do(obj, op, aux)) for op in job["suffix"]]
+        except Exception:  # noqa: BLE001
+            out["harness_error"] = traceback.format_exc()[-800:]
+        tag = "ref" if mode == "save" else mode.split(":")[1]
+        with open(os.path.join(work, f"res_{tag}_{i}.pkl"), "wb") as f:
+            pickle.dump(out, f)
+
+
+def _xproc_chunk(case, tally):
+    """One batch of part-X jobs: 1 saving interpreter + 1 restoring interpreter per other hash seed."""
+    import json
+    import shutil
+    import subprocess
+    import tempfile
+
+    jobs = case["jobs"]
+    scratch = case.get("scratch") or _SCRATCH
+    work = tempfile.mkdtemp(prefix="c20x_", dir=scratch)
+    root = os.path.dirname(os.path.dirname(os.path.abspath(__file__)))
+    try:
+        script, jobs_file = os.path.join(work, "xproc.py"), os.path.join(work, "jobs.json")
+        with open(script, "w") as f:
+            f.write(_X_SCRIPT.format(src=os.environ.get("VERIF_REPO_SRC", "/repo/src"), root=root, vendor=os.path.join(root, "vendor")))
+        with open(jobs_file, "w") as f:
+            json.dump(jsonable(jobs), f)
+        seeds = case.get("seeds") or list(XPROC_SEEDS)
+        def launch(k, seed):
+            env = dict(os.environ, PYTHONHASHSEED=seed, PYTHONDONTWRITEBYTECODE="1")
+            return subprocess.Popen([sys.executable, script, "save" if k == 0 else f"load:{seed}", jobs_file, work], env=env, stdout=subprocess.DEVNULL, stderr=subprocess.PIPE, text=True)
+
+        procs = [launch(0, seeds[0])]
+        procs[0].wait(timeout=1500)
+        procs += [launch(k, seed) for k, seed in enumerate(seeds[1:], 1)]  # the restoring interpreters are independent of each other
+        for k, p in enumerate(procs):
+            err = p.communicate(timeout=1500)[1]
+            if p.returncode != 0:
+                tally.violation({"invariant": "harness-error", "where": "part X interpreter"}, {"part": "X", "jobs": jobs[:1]}, f"interpreter {k} exited with {p.returncode}: {(err or '')[-1500:]}")
+                return
+        for i, job in enumerate(jobs):
+            ref = pickle.load(open(os.path.join(work, f"res_ref_{i}.pkl"), "rb"))
+            cls = job["subject"] if job["part"] in ("D", "P", "S") else "MDOFunction:" + job["subject"]
+            if job["part"] == "D":
+                cls = job["subject"].split("/")[0]
+            pos = "fresh" if not job["prefix"] else ("after-linearize" if job["prefix"][-1][0] == "L" else "after-execute")
+            base = {"cls": cls, "position": pos, "process": "another-interpreter", **{a: job[a] for a in ("grammar", "cache", "stage") if a in job}}
+            found = []
+
+            def bad(inv, msg, **extra):
+                found.append((inv, extra, msg))
+
+            outcome = "ok"
+            if "harness_error" in ref or "build_error" in ref:
+                tally.violation({"invariant": "harness-error", "where": "part X build"}, {"part": "X", "jobs": [job]}, ref.get("harness_error") or ref.get("build_error"))
+                continue
+            if "pickle_error" in ref:
+                outcome = "round-trip-raises (reported by the in-process parts, which enumerate the same prefix)"
+            else:
+                tally.sets.setdefault("states", set()).add(digest(repr(ref["obs"])))
+                for seed in seeds[1:]:
+                    res = pickle.load(open(os.path.join(work, f"res_{seed}_{i}.pkl"), "rb"))
+                    tally.transitions += 1 + len(job["suffix"])
+                    if "harness_error" in res:
+                        tally.violation({"invariant": "harness-error", "where": "part X restore"}, {"part": "X", "jobs": [job]}, res["harness_error"])
+                        continue
+                    if "restore_error" in res:
+                        bad("restore-raises-in-another-process", f"PYTHONHASHSEED={seed}: {res['restore_error']}")
+                        continue
+                    for inv, msg in static_violations(ref["obs"], res["obs"], f"restored in another interpreter (PYTHONHASHSEED {seeds[0]} -> {seed})"):
+                        bad(inv, msg)
+                    for op, r0, r1 in zip(job["suffix"], ref["results"], res["results"]):
+                        r = _cmp_results(r0, r1, job.get("tol", 0.0), f"{op} after a restore in another interpreter (PYTHONHASHSEED {seeds[0]} -> {seed})", bad, op[0])
+                        if r == "within-tolerance":
+                            outcome = "ok-within-iteration-tolerance"
+                _BOTH_RAISE.clear()
+            if found:
+                outcome = "violation"
+            hist = [*job["prefix"], job["rt"], *job["suffix"]]
+            tally.case(("X", job["part"], job["subject"], job.get("stage"), job.get("grammar"), job.get("cache"), tuple(hist)), nontrivial=True, outcome=f"X:{outcome}",
+                       sample={"part": "X", "subject": job["subject"], "hist": hist} if i < 2 else None)
+            tally.traces += 1
+            for inv, extra, msg in found:
+                sig = {"invariant": inv, **extra} if inv == "round-trip-raises" else {"invariant": inv, **base, **extra}
+                tally.sets.setdefault("subjects:" + _fixed_key(sig), set()).add(job["subject"])
+                tally.violation(sig, {"part": "X", "jobs": [job]}, f"{inv}: {job['subject']} [{job.get('grammar', '')}] history {hist}: {msg}")
+    finally:
+        shutil.rmtree(work, ignore_errors=True)
+
+
+def xproc_cases(ctx, catalog, only):
+    """Jobs of part X: (prefix, round-trip kind, suffix) per subject; batched so that a few interpreters serve them all."""
+    from props import _c20_twins as T
+
+    scales, X = list(ctx.pick(SCALESETS)), ctx.pick(T.XSETS)
+    combos = [([], "RF", ["E1", "L1", "E3"]), (["E1", "L1"], "RP", ["E2", "L1", "E3"])]
+    if ctx.thorough:
+        combos += [([], "RP", ["E1", "L1", "E3"]), (["E1"], "RF", ["L1", "E2", "E3"]), (["E1", "E2", "L1"], "RP", ["E2", "L1", "E3"])]
+    jobs = []
+    if "D" in only:
+        first = {}
+        for info in catalog:
+            if info["built"]:
+                first.setdefault(info["subject"], info["grammar"])
+        for info in catalog:
+            if not info["built"] or first[info["subject"]] != info["grammar"]:
+                continue
+            name = info["subject"]
+            tol = ITER_TOL.get(_base_cls(name), ITER_TOL["default"]) if _base_cls(name) in R.ITERATIVE else 0.0
+            for cache in (["simple", "memF"] if ctx.thorough and "@" not in name else ["simple"]):
+                for pre, rt, suf in (combos if "@" not in name else combos[1:2]):
+                    strip = (lambda ops: [o for o in ops if o[0] != "L"]) if info["lin"][0] == "none" else (lambda ops: list(ops))
+                    jobs.append({"part": "D", "subject": name, "grammar": info["grammar"], "cache": cache, "lin": info["lin"], "scales": scales, "tol": tol,
+                                 "prefix": strip(pre), "rt": rt, "suffix": strip(suf), "cost": info.get("cost_s", 0.05)})
+    if "F" in only:
+        for name in T.FUNCS:
+            jobs += [{"part": "F", "subject": name, "X": X, "prefix": pre, "rt": rt, "suffix": suf, "cost": 0.01} for pre, rt, suf in combos]
+    if "P" in only:
+        for kind in ("float", "mixed", "novalue", "ParameterSpace"):
+            jobs += [{"part": "P", "subject": f"DesignSpace/{kind}", "X": X, "prefix": pre, "rt": rt, "suffix": suf, "cost": 0.01} for pre, rt, suf in combos]
+        for kind in T.PROBLEM_KINDS:
+            for stage in T.STAGES:
+                for pre, rt, suf in (combos if ctx.thorough or kind == "base" else combos[1:2]):
+                    jobs.append({"part": "P", "subject": f"OptimizationProblem/{kind}", "stage": stage, "X": X, "prefix": pre, "rt": rt, "suffix": [*suf, "X"], "cost": 0.05})
+    if "S" in only:
+        for name in T.SCENARIOS:
+            tol = 1e-6 if name in T.ITERATIVE_SCENARIOS else 0.0
+            for pre, rt, suf in [([], "RP", ["X"]), (["X"], "RF", ["X"])]:
+                jobs.append({"part": "S", "subject": name, "grammar": "JSONGrammar", "cache": "simple", "tol": tol, "prefix": pre, "rt": rt, "suffix": suf, "cost": 0.5})
+    # batches of similar total cost (an interpreter start costs a few seconds: few batches)
+    n = max(2, min(len(jobs), ctx.jobs // 2 if not ctx.thorough else ctx.jobs))
+    jobs.sort(key=lambda j: -j["cost"])
+    batches = [[] for _ in range(n)]
+    loads = [0.0] * n
+    for j in jobs:
+        k = loads.index(min(loads))
+        batches[k].append(j)
+        loads[k] += j["cost"]
+    return [{"part": "X", "jobs": b} for b in batches if b]
+
+
 # ======================================================================================================
 # aggregation of raw violations: one signature per defect site
 # ======================================================================================================
@@ -1321,17 +1591,23 @@ def run(ctx):
     global _SCRATCH
     _SCRATCH = ctx.scratch
     tally = ctx.tally
-    only = ctx.only or "DSFP"
+    groups = []
+    only = (ctx.only or "DSFPX").split(":")[0]  # parts to run; "--only DX:Sellar1,MDOChain" restricts the classes of part D
+    catalog = []
     scales = list(ctx.pick(SCALESETS))
     bounds = {}
     raw = Tally()
     axes_values = {}
-    if "D" in only:
+    if "D" in only or "X" in only:
         classes, names, not_built = R.subject_names()
         if ctx.only and ":" in ctx.only:
-            names = [n for n in names if n.split("/")[0] in ctx.only.split(":")[1].split(",")]
+            names = [n for n in names if _base_cls(n) in ctx.only.split(":")[1].split(",")]
         grammars = GRAMMARS_THOROUGH if ctx.thorough else GRAMMARS_QUICK
-        catalog = pmap_raw(_catalog_one, [(n, g, scales) for g in grammars for n in names], jobs=ctx.jobs)
+        devs = R.deviation_names()
+        if ctx.only and ":" in ctx.only:
+            devs = [n for n in devs if _base_cls(n) in ctx.only.split(":")[1].split(",")]
+        catalog = pmap_raw(_catalog_one, [(n, g, scales) for g in grammars for n in names] + [(n, grammars[0], scales) for n in devs], jobs=ctx.jobs)
+        tally.notes["constructor_setting_deviations"] = devs
         # a class whose grammars come from files ignores the requested type: keep one configuration per obtained type
         seen = set()
         for info in catalog:
@@ -1346,7 +1622,7 @@ def run(ctx):
         tally.notes["not_built_with_grammar"] = {g: {i["subject"]: i.get("why", "") for i in catalog if i["grammar"] == g and not i["built"]} for g in grammars}
         tally.notes["linearization_mode"] = {i["subject"]: i["lin"][0] for i in catalog if i["built"] and i["grammar"] == "JSONGrammar"}
         tally.notes["cache_alphabet"] = CACHES + ["(MemoryFullCache(is_memory_shared=True) shares its manager dictionaries by documentation: excluded)"]
-        cases = disc_cases(ctx, catalog)
+        cases = disc_cases(ctx, catalog) if "D" in only else []
         for c in cases:
             cls = c["subject"].split("/")[0]
             axes_values.setdefault((cls, "position"), set()).add(_position(c["hist"]))
@@ -1355,11 +1631,12 @@ def run(ctx):
         per_cfg = {}
         for c in cases:
             per_cfg.setdefault((c["subject"], c["grammar"], c["cache"]), []).append(len(c["hist"]))
-        bounds["D"] = {"subjects": len(tally.notes["subjects"]), "configurations": len(per_cfg), "cases": len(cases),
-                       "histories_per_configuration": {"min": min(map(len, per_cfg.values())), "max": max(map(len, per_cfg.values()))},
-                       "max_history_length": max(len(c["hist"]) for c in cases), "plan": disc_cases.__doc__.split("\n\n")[1].strip() if disc_cases.__doc__ else ""}
-        pmap(_disc_case, cases, raw, jobs=ctx.jobs, chunk=24, timeout=600)
-    rest = "".join(c for c in only.split(":")[0] if c in "FPS")
+        if cases:
+          bounds["D"] = {"subjects": len(tally.notes["subjects"]), "configurations": len(per_cfg), "cases": len(cases),
+                         "histories_per_configuration": {"min": min(map(len, per_cfg.values())), "max": max(map(len, per_cfg.values()))},
+                         "max_history_length": max(len(c["hist"]) for c in cases), "plan": disc_cases.__doc__.split("\n\n")[1].strip() if disc_cases.__doc__ else ""}
+        groups += [{"cases": cases[i:i + 24]} for i in range(0, len(cases), 24)]
+    rest = "".join(c for c in only if c in "FPS")
     if rest:
         cases2 = twin_cases(ctx, rest)
         for c in cases2:
@@ -1373,7 +1650,13 @@ def run(ctx):
             sub = [c for c in cases2 if c["part"] == part]
             bounds[part] = {"subjects": len({c["subject"] for c in sub}), "configurations": len({(c["subject"], c.get("stage"), c.get("grammar"), c.get("cache")) for c in sub}),
                             "cases": len(sub), "max_history_length": max(len(c["hist"]) for c in sub)}
-        pmap(_twin_case, cases2, raw, jobs=ctx.jobs, chunk=12, timeout=600)
+        groups += [{"cases": cases2[i:i + 12]} for i in range(0, len(cases2), 12)]
+    if "X" in only:
+        xcases = xproc_cases(ctx, catalog, only if ctx.only and only != "X" else "DFPS")
+        bounds["X"] = {"jobs": sum(len(c["jobs"]) for c in xcases), "batches": len(xcases), "interpreters": 3 * len(xcases), "hash_seeds": list(XPROC_SEEDS),
+                       "words": "prefix, round-trip, suffix: ([], RF, [E1, L1, E3]) and ([E1, L1], RP, [E2, L1, E3]) per subject (thorough: 5 words, + MemoryFull)"}
+        groups = [{"cases": [c]} for c in xcases] + groups  # started first: each batch is a chain of 3 interpreters
+    pmap(_run_group, groups, raw, jobs=ctx.jobs, chunk=1, timeout=3000)
     aggregate(raw, tally, axes_values)
     raw.violations = {}
     tally.merge(raw)
@@ -1395,13 +1678,29 @@ def run(ctx):
     }
 
 
+def _run_case(case, tally):
+    part = case.get("part", "D")
+    if part == "D":
+        _disc_case(case, tally)
+    elif part == "X":
+        _xproc_chunk(case, tally)
+    else:
+        _twin_case(case, tally)
+
+
+def _run_group(group, tally):
+    """A group of cases handled by one worker call; a harness error in one case never hides the others."""
+    for case in group["cases"]:
+        try:
+            _run_case(case, tally)
+        except Exception:  # noqa: BLE001
+            tally.violation({"invariant": "harness-error", "where": traceback.format_exc().strip().splitlines()[-1][:120]}, case if case.get("part") != "X" else {"part": "X", "jobs": case["jobs"][:1]},
+                            traceback.format_exc())
+
+
 def replay(case, ctx):
     global _SCRATCH
     _SCRATCH = ctx.scratch
     t = Tally()
-    part = case.get("part", "D")
-    if part == "D":
-        _disc_case(case, t)
-    else:
-        _twin_case(case, t)
+    _run_case(case, t)
     return {"outcomes": dict(t.outcomes), "violations": [v["message"] for v in t.violations.values()]}
